@@ -3,6 +3,7 @@ package gen
 import (
 	"fmt"
 	"strconv"
+	"strings"
 
 	"verif/harness/jx"
 )
@@ -12,6 +13,23 @@ var HolderKw = []string{"properties", "patternProperties", "definitions", "items
 
 var Containers = []string{"definition", "sharedParam", "sharedResponse", "opParam", "pathParam", "defaultResponse", "codeResponse"}
 
+// EscTwin returns, for a name that needs JSON-pointer escaping, the literal name that looks like its escaped form
+// ("a/b" -> "a~1b"): two siblings named like that are told apart only by a correct, complete escaping. ok is false
+// when the name needs no escaping.
+func EscTwin(name string) (twin string, ok bool) {
+	if !strings.ContainsAny(name, "/~") {
+		return "", false
+	}
+	return strings.ReplaceAll(strings.ReplaceAll(name, "~", "~0"), "/", "~1"), true
+}
+
+func withTwin(m jx.Obj, key string) jx.Obj {
+	if tw, ok := EscTwin(key); ok {
+		m[tw] = jx.Clone(m[key])
+	}
+	return m
+}
+
 // Wrap nests leaf under depth levels of the holder keyword kw. key names the map entry for keyed holders.
 func Wrap(kw string, depth int, leaf jx.Obj, key string) jx.Obj {
 	cur := leaf
@@ -19,7 +37,7 @@ func Wrap(kw string, depth int, leaf jx.Obj, key string) jx.Obj {
 		d := "lvl" + strconv.Itoa(depth-i)
 		switch kw {
 		case "properties":
-			cur = jx.Obj{"type": "object", "description": d, "properties": jx.Obj{key: cur, "other": jx.Obj{"type": "string"}}}
+			cur = jx.Obj{"type": "object", "description": d, "properties": withTwin(jx.Obj{key: cur, "other": jx.Obj{"type": "string"}}, key)}
 		case "patternProperties":
 			cur = jx.Obj{"type": "object", "description": d, "patternProperties": jx.Obj{key: cur, "^sib-" + d: jx.Obj{"type": "object", "description": "sibling of " + d, "properties": jx.Obj{"s": jx.Obj{"type": "integer"}}}}}
 		case "definitions":
@@ -65,6 +83,7 @@ func InContainer(doc jx.Obj, container, path, method, name string, s jx.Obj) {
 			doc["definitions"] = ds
 		}
 		ds[name] = s
+		withTwin(ds, name)
 	case "sharedParam":
 		ps := jx.AsObj(doc["parameters"])
 		if ps == nil {
@@ -72,6 +91,7 @@ func InContainer(doc jx.Obj, container, path, method, name string, s jx.Obj) {
 			doc["parameters"] = ps
 		}
 		ps[name] = jx.Obj{"name": "body", "in": "body", "schema": s}
+		withTwin(ps, name)
 	case "sharedResponse":
 		rs := jx.AsObj(doc["responses"])
 		if rs == nil {
@@ -79,6 +99,7 @@ func InContainer(doc jx.Obj, container, path, method, name string, s jx.Obj) {
 			doc["responses"] = rs
 		}
 		rs[name] = jx.Obj{"description": "shared", "schema": s}
+		withTwin(rs, name)
 	case "opParam":
 		op["parameters"] = append(jx.AsArr(op["parameters"]), jx.Obj{"name": "body", "in": "body", "schema": s})
 	case "pathParam":
